@@ -68,6 +68,7 @@ class Session:
         leaves = make_leaves(leaves_of(steps), seed())
         rp = Replayer(self.ex, leaves, exact_tags=exact_tags, prefix=prefix, **kw)
         idx, bad = rp.run(steps)
+        self.last_trace = rp.trace if idx is None else None
         names = {prefix + st["c"] for st in steps if st.get("c")}
         for nme in names:
             self.ex.call({"op": "drop", "ctx": nme})
